@@ -19,11 +19,12 @@ from common import Check, run_impl, standard_proof_step, TRUSTED_COMMON
 IMPORTS = "From XV Require Import Base.Str Base.Eqb Model.Bind Model.EventGen Model.DictCodec Model.DictCodecCorr."
 SLICE_MIX = [("F1",), ("F1",), ("F1", "F2"), ("F1", "F2", "F3"), ("F1", "F2", "F3")]
 CHECKS = ["in_proved_slice", "theorem_instance", "negb_ambiguous", "agree_encode", "agree_decode", "oracle_roundtrip", "oracle_strict_json", "is_typed", "in_guard",
-          "not_class 0", "not_class 1", "not_class 2", "not_class 4", "not_class 5", "not_class 7", "not_class 10", "not_class 11",
+          "not_class 0", "not_class 1", "not_class 2", "not_class 4", "not_class 5", "not_class 7", "not_class 10", "not_class 11", "not_class 12",
           "not_class 98"]
 CLASS_NAMES = {"not_class 1": "json-key-collision", "not_class 2": "null-decodes-to-default",
                "not_class 4": "compound-choice-shadowed-in-json", "not_class 10": "best-match-tie",
-               "not_class 11": "wrapper-under-best-match", "not_class 5": "tuple-field", "not_class 7": "generic-keys-filtered"}
+               "not_class 11": "wrapper-under-best-match", "not_class 5": "tuple-field", "not_class 7": "generic-keys-filtered",
+               "not_class 12": "best-match-guess"}
 
 
 def gen_cases(ck, n_models, per_model):
@@ -50,6 +51,105 @@ def gen_cases(ck, n_models, per_model):
         models.append({"desc": desc, "src": genmodels.render_source(desc), "classes": [c["name"] for c in desc["classes"]],
                        "enums": [e["name"] for e in desc["enums"]], "cases": cases})
     return models
+
+
+SPECIAL_ENUMS = HEADER_SPECIAL = """from dataclasses import dataclass, field
+from decimal import Decimal
+from enum import Enum
+from typing import Optional, Union
+from xml.etree.ElementTree import QName
+from xsdata.models.datatype import XmlDate, XmlDateTime, XmlDuration, XmlPeriod, XmlTime
+
+class ED(Enum):
+    A = Decimal("1.5")
+    B = Decimal("-20")
+
+class EQ(Enum):
+    A = QName("{urn:a}x")
+    B = QName("y")
+
+class EX(Enum):
+    A = XmlDate(2001, 2, 28)
+    B = XmlDate(1999, 12, 31)
+
+class EF(Enum):
+    A = 1.5
+    B = -0.25
+
+@dataclass
+class R:
+    class Meta:
+        namespace = "urn:r"
+    d: Optional[ED] = field(default=None, metadata={"type": "Element"})
+    q: list[EQ] = field(default_factory=list, metadata={"type": "Element"})
+    x: Optional[EX] = field(default=None, metadata={"type": "Attribute"})
+    t: list[ED] = field(default_factory=list, metadata={"type": "Element", "tokens": True})
+    f: Optional[EF] = field(default=None, metadata={"type": "Element"})
+"""
+
+
+def special_models(r):
+    """hand-written models the description language of genmodels cannot express"""
+    E = lambda e, m: {"__p__": "enum", "enum": e, "member": m}   # noqa: E731
+    cases = []
+    for _ in range(4):
+        rec = {"__cls__": "R", "fields": {
+            "d": r.choice([None, E("ED", "A"), E("ED", "B")]), "q": [E("EQ", r.choice("AB")) for _ in range(r.choice([0, 1, 2]))],
+            "x": r.choice([None, E("EX", "A"), E("EX", "B")]), "t": [E("ED", r.choice("AB")) for _ in range(r.choice([0, 1, 3]))],
+            "f": r.choice([None, E("EF", "A"), E("EF", "B")])}}
+        for fac in ("dict", "filter_none"):
+            cases.append({"recipe": rec, "root": "R", "factory": fac, "ignore": False})
+    desc = {"slices": ["special-enums"], "classes": [{"name": "R"}], "enums": []}
+    return [{"desc": desc, "src": SPECIAL_ENUMS, "classes": ["R"], "enums": ["ED", "EQ", "EX", "EF"], "cases": cases}]
+
+
+STRICT_TYPES = [("int", lambda r: r.choice(["5", "-17", "0"])), ("float", lambda r: r.choice(["1.5", "2e3"])),
+                ("bool", lambda r: r.choice(["true", "false"])), ("XmlDate", lambda r: "2001-02-28")]
+
+
+def best_match_models(r, n):
+    """sibling classes with the same field names: one with strict primitive types, one with str;
+    the decoder has to guess the class from the keys and values (bind_best_dataclass)"""
+    out = []
+    for _ in range(n):
+        nf = r.randint(2, 3)
+        kinds = [r.choice(STRICT_TYPES) for _ in range(nf)]
+        a = {"name": "A", "meta": {}, "base": None,
+             "fields": [F(f"k{i}", "Element", ("prim", kinds[i][0]), optional=True) for i in range(nf)]}
+        b = {"name": "B", "meta": {}, "base": None,
+             "fields": [F(f"k{i}", "Element", ("prim", "str"), optional=True) for i in range(nf)]}
+        style = r.choice(["compound", "compound-scalar"])
+        root = {"name": "R", "meta": {}, "base": None, "fields": [
+            {"name": "item", "kind": "Elements", "list": style == "compound",
+             "choices": [{"name": "a", "type": ("class", "A")}, {"name": "b", "type": ("class", "B")}]}]}
+        if r.random() < 0.5:
+            root["fields"][0]["choices"].reverse()
+        desc = {"module_ns": None, "enums": [], "root": "R", "slices": ["best-match"], "classes": [root, a, b]}
+        cases = []
+        for _ in range(3):
+            def inst():
+                if r.random() < 0.4:
+                    return {"__cls__": "A", "fields": {f"k{i}": {"__p__": kinds[i][0], "v": _val(kinds[i][0], kinds[i][1](r))} for i in range(nf)}}
+                # a B whose values are a mix of texts the strict sibling accepts and texts it does not
+                vals = {}
+                bad = r.randrange(nf)
+                for i in range(nf):
+                    vals[f"k{i}"] = {"__p__": "str", "v": "n/a" if i == bad else kinds[i][1](r)}
+                return {"__cls__": "B", "fields": vals}
+            item = [inst() for _ in range(r.choice([1, 2, 3]))] if style == "compound" else inst()
+            rec = {"__cls__": "R", "fields": {"item": item}}
+            for fac in ("dict", "filter_none"):
+                cases.append({"recipe": rec, "root": "R", "factory": fac, "ignore": False})
+        out.append({"desc": desc, "src": genmodels.render_source(desc), "classes": ["R", "A", "B"], "enums": [], "cases": cases})
+    return out
+
+
+def _val(tp, text):
+    if tp == "int":
+        return int(text)
+    if tp == "bool":
+        return text == "true"
+    return text
 
 
 def witness_models():
@@ -85,6 +185,13 @@ def witness_models():
     out.append(("generic-keys-filtered", d,
                 {"__cls__": "A", "fields": {"w": {"__any__": {"qname": "k", "text": "t", "tail": None, "attributes": {}, "children": []}}}},
                 "filter_none"))
+    # 7. sibling classes with the same keys: the class is guessed from the values
+    d = mk([one("R", [{"name": "item", "kind": "Elements", "list": False,
+                       "choices": [{"name": "a", "type": ("class", "A")}, {"name": "b", "type": ("class", "B")}]}]),
+            one("A", [F("k0", "Element", ("prim", "int"), optional=True), F("k1", "Element", ("prim", "int"), optional=True)]),
+            one("B", [F("k0", "Element", ("prim", "str"), optional=True), F("k1", "Element", ("prim", "str"), optional=True)])])
+    out.append(("best-match-guess", d,
+                {"__cls__": "R", "fields": {"item": {"__cls__": "B", "fields": {"k0": P("str", "5"), "k1": P("str", "7")}}}}, "dict"))
     return out
 
 
@@ -143,6 +250,7 @@ def run(ck: Check):
     for cls, desc, rec, fac in wit:
         models.append({"desc": desc, "src": genmodels.render_source(desc), "classes": [c["name"] for c in desc["classes"]],
                        "enums": [], "cases": [{"recipe": rec, "root": desc["root"], "factory": fac, "ignore": False}], "witness": cls})
+    models += special_models(ck.rng) + best_match_models(ck.rng, ck.n(12, 200))
     models += gen_cases(ck, n_models, per_model)
     res = run_impl("impl_c04.py", {"models": [{k: m[k] for k in ("src", "classes", "enums", "cases")} for m in models]}, timeout=1500)
     unsupported = [(i, m["unsupported"]) for i, m in enumerate(res["models"]) if m["unsupported"]]
@@ -152,6 +260,11 @@ def run(ck: Check):
     try:
         n_eval, v = evaluate(models, res)
         nw = len(wit)
+        for mi, rm in enumerate(res["models"]):
+            for ci, c in enumerate(rm["cases"]):
+                if c.get("not_native"):
+                    ck.failure("encoded-not-json-native", "DictEncoder.encode left a value that is not JSON native: " + c["not_native"],
+                               {"src": models[mi]["src"], "case": models[mi]["cases"][ci], "enc": c.get("enc")})
         for mi, ci in v["agree_encode"][:3]:
             ck.failure("corr-encode", "DictCodec.encode and DictEncoder.encode disagree", describe(models, res, mi, ci, f"c04_e{mi}_{ci}"))
         for mi, ci in v["agree_decode"][:3]:
